@@ -18,13 +18,20 @@ class VivoRecorder:
         self._orig = []
         self._pending_submit = {}      # id(order) -> pre snapshot taken when the constructor was entered
         self._open_exec = []           # stack of [order, pre, emitted]
+        self._cache = {}
+        self._last_post = None
 
     def snap(self):
-        return acct.snapshot_from_store(self.kind, self.ex, self.syms, self.K, self.orders, self.ordinal)
+        return acct.snapshot_from_store(self.kind, self.ex, self.syms, self.K, self.orders, self.ordinal, cache=self._cache)
 
     def emit(self, ev, pre, post):
         if self.init is None:
             self.init = pre
+        if self._last_post is not None and pre == self._last_post:
+            pre = self._last_post           # same object: not stored twice
+        if post == pre:
+            post = pre
+        self._last_post = post
         ev["pre"], ev["post"] = pre, post
         ev.setdefault("exc", "none")
         self.ev.append(ev)
@@ -37,6 +44,8 @@ class VivoRecorder:
             s = self.snap()
         except Exception:
             return
+        if self._last_post is not None and s == self._last_post:
+            return                          # nothing changed since the last call: already judged
         self.emit({"k": "obs", "at": name}, s, s)
 
     def _wrap(self, obj, name, make):
